@@ -189,7 +189,9 @@ impl<A: SocketAddress> FdOp for SocketNameOp<A> {
         err: io::Error,
     ) -> io::Result<Self::Output> {
         match err.raw_os_error() {
-            Some(libc::EOPNOTSUPP) => {
+            // NOTE: the fallback needs a file descriptor, for a direct
+            // descriptor `fd.fd()` is an index into the ring's table.
+            Some(libc::EOPNOTSUPP) if matches!(fd.kind(), fd::Kind::File) => {
                 let (ptr, length) = unsafe { A::as_mut_ptr(&mut (resources.0).0) };
                 let address_length = &mut (resources.0).1;
                 *address_length = length;
